@@ -257,6 +257,7 @@ func tileFor(r *hx.Rng, op string) Desc {
 				a.Data = append(a.Data, randVec(r, ar, -6, 6))
 			}
 			d.Attrs = append(d.Attrs, a)
+			have[fmt.Sprint(ar, name)] = true
 		}
 		switch op {
 		case "scale_along_normal":
@@ -264,8 +265,18 @@ func tileFor(r *hx.Rng, op string) Desc {
 		case "scale2":
 			add(2, "TexCoord")
 		}
+		// any attribute mix at size: one more attribute of each arity, each half of the time
 		if r.Bool() {
 			add(1, "Opacity")
+		}
+		if r.Bool() {
+			add(2, "TexCoord")
+		}
+		if r.Bool() {
+			add(4, "Color")
+		}
+		if r.Bool() {
+			add(3, "Normal")
 		}
 		return d
 	}
